@@ -17,6 +17,13 @@ def units(tier, seed):
     return [{"kind": "coherence"}, {"kind": "pin"}]
 
 
+def snapshot_tname(t):
+    ns = loader.load()
+    if ns.is_list(t):
+        return {"list": t.__args__[0].__name__}
+    return None if t is None else t.__name__
+
+
 def _norm(s):
     return re.sub(r"[^A-Za-z0-9]", "", s).upper()
 
@@ -132,6 +139,28 @@ def coherence(acc):
                     n = getattr(t, "_list_size", {}).get(f.name)
                     if not isinstance(n, int) or n <= 0:
                         acc.violation({"clause": "union-list-size", "type": name, "member": f.name}, {"harness": "coherence"}, f"{name}.{f.name}: list member without fixed length ({n})")
+    # the layout derived for an encrypted parameter area: the pinned fields with the first one replaced by the opaque
+    # TPM2B_ENCRYPTED_PARAM, nothing else (101 areas can be encrypted)
+    pinS = snapshot.pinned()["structs"]
+    for tk in ("cp", "rp"):
+        for cc in ccs:
+            t = tables[tk][0].get(cc)
+            pf = pinS.get(getattr(t, "__name__", ""), {}).get("fields")
+            if t is None or not pf or not (isinstance(pf[0][1], str) and pf[0][1].startswith("TPM2B")):
+                continue
+            acc.count("evaluations")
+            acc.shape(("encrypted-layout", tk, int(cc)))
+            loader.cache_clear()
+            try:
+                e = t.encrypted()
+                got = [[f.name, snapshot_tname(f.type)] for f in fields(e)]
+            except Exception as ex:  # noqa: BLE001
+                acc.violation({"clause": "encrypted-layout-raises", "table": tk, "cc": cc._name}, {"harness": "coherence"}, f"{t.__name__}.encrypted(): {type(ex).__name__}: {ex}")
+                continue
+            want = [[pf[0][0], "TPM2B_ENCRYPTED_PARAM"]] + [list(x) for x in pf[1:]]
+            if got != want or e.__name__ != t.__name__:
+                acc.violation({"clause": "encrypted-layout", "table": tk, "cc": cc._name}, {"harness": "coherence"}, f"{t.__name__}.encrypted() has fields {got}, expected {want}")
+    loader.cache_clear()
     acc.sample({"coherence": "TPM_CC x 4 tables, every struct/tpm2b/union field", "codes": len(ccs), "types": len(alltypes)})
 
 
